@@ -247,6 +247,7 @@ def consistency_case(rng, k=None):
 
 def det_programs():
     A = jnp.asarray([[1.0, 2.0], [3.0, -1.0]])
+    SPD = jnp.asarray([[3.0, 1.0], [1.0, 2.0]])
     return {
         "poly": (lambda x: x * x * 3.0 + 2.0 * x - 1.0, "s"),
         "trig": (lambda x: jnp.sin(x) * jnp.exp(x * 0.5), "s"),
@@ -274,7 +275,8 @@ def det_programs():
         "inner_vmap": (lambda x: jnp.sum(jax.vmap(lambda a: a * a * x[0])(x)), "v"),
         "cumsum_sort": (lambda x: jnp.sum(jnp.cumsum(jnp.sort(x)) * x), "v"),
         "argmax_index": (lambda x: x[jnp.argmax(x)] * x[jnp.argmin(x)] + x[jnp.argmax(x)], "v"),
-        "linalg_solve": (lambda x: jnp.sum(jnp.linalg.solve(A + jnp.diag(x[:2] * x[:2]), x[:2])), "v"),
+        # symmetric positive definite for every x (A + diag(x^2) itself is singular at x = (-1, 2))
+        "linalg_solve": (lambda x: jnp.sum(jnp.linalg.solve(SPD + jnp.diag(x[:2] * x[:2]), x[:2])), "v"),
         "linalg_det_inv": (lambda x: jnp.linalg.det(A * x[0]) + jnp.sum(jnp.linalg.inv(A + jnp.eye(2) * (4.0 + x[1] * x[1]))), "v"),
         "concat_reshape": (lambda x: jnp.sum(jnp.concatenate([x, x * 2.0]).reshape(2, 3) @ x), "v"),
         "dynamic_slice": (lambda x: jnp.sum(jax.lax.dynamic_slice(x * x, (jnp.argmax(x) % 2,), (2,))), "v"),
